@@ -197,3 +197,47 @@ Lemma INS_end_nonroot ps T : INS ps T -> forall w, is_end T w = true -> w <> [].
 Proof.
   intros H w Hw. apply (ins_end ps T H) in Hw. destruct Hw as (p & _ & Hne & <-). apply runes_of_nonempty. exact Hne.
 Qed.
+
+(* every node is a prefix of the rune word of an inserted pattern *)
+Lemma insert_go_inT : forall toks T cur i w, WF T -> inT T cur = true ->
+  inT (insert_go T cur i toks) w = true -> inT T w = true \/ exists ext, cur ++ map fst toks = w ++ ext.
+Proof.
+  induction toks as [|[r wd] rest IH]; intros T cur i w HW Hc Hin; cbn [insert_go map fst] in *.
+  - rewrite inT_upd in Hin. left. exact Hin.
+  - cbv zeta in Hin. rewrite (insert_test (kids_of T cur) r (wf_sorted T HW cur)) in Hin.
+    replace (cur ++ r :: map fst rest) with ((cur ++ [r]) ++ map fst rest) by (rewrite <- app_assoc; reflexivity).
+    destruct (in_dec Z.eq_dec r (kids_of T cur)) as [Hk|Hnk]; cbn [negb] in Hin.
+    + apply IH in Hin; auto. apply (wf_kids T HW). exact Hk.
+    + fold (add_child T cur r (i + Z.of_nat wd)) in Hin.
+      apply IH in Hin.
+      * destruct Hin as [Hin|Hin]; [|right; exact Hin]. rewrite inT_add_child in Hin by exact Hc.
+        apply orb_true_iff in Hin. destruct Hin as [Hin|Hin]; [left; exact Hin|]. apply weqb_eq in Hin. subst w.
+        right. exists (map fst rest). reflexivity.
+      * apply WF_add_child; auto.
+      * rewrite inT_add_child by exact Hc. rewrite weqb_refl, orb_true_r. reflexivity.
+Qed.
+
+Lemma inserts_words : forall qs ps T, WF T ->
+  (forall w, inT T w = true -> w = [] \/ exists p ext, In p ps /\ runes_of p = w ++ ext) ->
+  forall w, inT (fold_left insert qs T) w = true -> w = [] \/ exists p ext, In p (ps ++ qs) /\ runes_of p = w ++ ext.
+Proof.
+  induction qs as [|q qs IH]; intros ps T HW H w Hin; cbn [fold_left] in Hin.
+  - rewrite app_nil_r. apply H. exact Hin.
+  - replace (ps ++ q :: qs) with ((ps ++ [q]) ++ qs) by (rewrite <- app_assoc; reflexivity).
+    apply (IH (ps ++ [q]) (insert T q)); auto.
+    + destruct q as [|b t]; [exact HW|]. unfold insert. apply (insert_go_spec (tokens (b :: t)) T [] 0 HW (wf_root T HW)).
+    + intros v Hv. destruct q as [|b t].
+      * cbn [insert] in Hv. destruct (H v Hv) as [->|(p & ext & Hp & E)]; [left; reflexivity|].
+        right. exists p, ext. split; [apply in_or_app; left; exact Hp|exact E].
+      * unfold insert in Hv. apply insert_go_inT in Hv; [|exact HW|exact (wf_root T HW)].
+        destruct Hv as [Hv|(ext & E)].
+        -- destruct (H v Hv) as [->|(p & ext & Hp & E)]; [left; reflexivity|].
+           right. exists p, ext. split; [apply in_or_app; left; exact Hp|exact E].
+        -- right. exists (b :: t), ext. split; [apply in_or_app; right; left; reflexivity|]. exact E.
+Qed.
+Theorem inserts_nodes ps w : inT (inserts ps) w = true -> w = [] \/ exists p ext, In p ps /\ runes_of p = w ++ ext.
+Proof.
+  intros H. apply (inserts_words ps [] empty_trie WF_empty); [|exact H].
+  intros v Hv. left. unfold inT, empty_trie in Hv. cbn [get] in Hv. destruct (weqb [] v) eqn:E; [|discriminate].
+  apply weqb_eq in E. auto.
+Qed.
